@@ -15,6 +15,11 @@ def map_cases(draw, ml):
     t = draw(gen.tree_descs(ml))
     sub = gen.tree_descs(4, max_depth=3, min_leaves=2)
     rests, rels = [], []
+    if draw(st.integers(0, 9)) == 0:
+        # stratum: a tree without leaves (f is never called) and a rest that matches / differs by one edit
+        t = draw(gen.tree_descs(ml, leaf=st.just(['none'])))
+        r, e = gen.near_miss(draw, t)
+        return {'t': t, 'rests': [r], 'rels': [f'near_miss:{e}'], 'cfg': draw(gen.configs())}
     if draw(st.integers(0, 3)) == 0:
         # stratum: a rest that differs from t by exactly one chosen local edit (every edit kind gets its share)
         t, r, e = gen.targeted_near_miss(draw, ml)
